@@ -139,9 +139,12 @@ def run(ctx):
                         cid = f"a{len(cases)}"
                         cases.append((cid, sl, [f, FC.hexbits(vb, ty)]))
                         meta[cid] = ("ratio", ty, bs, qr, u, f, vb, sl)
-                    cid = f"a{len(cases)}"
-                    cases.append((cid, sl, ["log", FC.hexbits(vb, ty), FC.hexbits(fl(7.0), ty)]))
-                    meta[cid] = ("ratio", ty, bs, qr, u, "log", vb, sl)
+                # log in an arbitrary base, the bases 2 and 10 included (for which log2 / log10 round differently from ln x / ln b)
+                for vb in vals + [fl(x / k) for x in (1000.0, 1.0e15 if ty == "f64" else 1.0e7, 0.001, 47.0, 125.0, 3.0, 536870912.0)]:
+                    for base in (7.0, 2.0, 10.0, 0.5):
+                        cid = f"a{len(cases)}"
+                        cases.append((cid, sl, ["log", FC.hexbits(vb, ty), FC.hexbits(fl(base), ty)]))
+                        meta[cid] = ("ratio", ty, bs, qr, u, "log", vb, sl)
             for qm in ("length", "velocity", "energy", "thermal_conductivity", "ratio"):
                 q = t.qmap[qm]
                 sl = h.slot(atan2_slot(q, bs, ty))
